@@ -53,6 +53,9 @@ if not a.skip_confirm:
         demo_cmd = meta.get("demo_cmd", "")
         demo_cmd = re.sub(r"cd\s+\S+\s*&&\s*", "", demo_cmd)
         demo_cmd = re.sub(r"cp\s+\S+\s+\S+\s*&&\s*", "", demo_cmd)
+        m = re.search(r"go test\s+(?:-[\w=.\'|$^*\\-]+\s+|'[^']*'\s+|\"[^\"]*\"\s+|\S+\s+)*?(\./\S+)", demo_cmd)
+        if m:
+            demo_cmd = demo_cmd[m.start():m.end()]  # drop prose after the package path
         res["confirmed"]["demo_cmd"] = demo_cmd
         res["confirmed"]["demo_placed"] = placed
         rc0, out0 = sh(demo_cmd, cwd=wt)
